@@ -317,7 +317,7 @@ extern "C" void h_pfc_saveload() {
   verif_assert(verif_stream_equal(0, 1, VS_BOUND), 1);      // C08: second save identical
   unsigned long w = verif_stream_written(0);
 #ifdef GENERIC_LOADER
-  StringDictionary *r = StringDictionary::load(*verif_istream(0));
+  StringDictionary *r = StringDictionary::load(*verif_istream(0), 0);
 #else
   StringDictionary *r = StringDictionaryPFC::load(*verif_istream(0));
 #endif
